@@ -414,6 +414,7 @@ OPTIONAL = [
     [['dtype', 'R', [['B2', -1]], 'r0', None],
      ['unit', 'R', 'r1', ['scaled', 'i:1000', 'r0']]],
     [['dtype', 'C', [['B1', 3]], None, 'F:1/8']],
+    [['dtype', 'I2', [['B2', -2]], None, None]],     # 1/B2^2 without B2^2
 ]
 NOREF_UNITS = [      # units of NB = N/B1, each declared or not
     ['unit', 'NB', 'n1/x0', ['derive', ['n1', 'x0']]],
@@ -423,8 +424,24 @@ NOREF_UNITS = [      # units of NB = N/B1, each declared or not
 NB = ['dtype', 'NB', [['N', 1], ['B1', -1]], None, None]
 
 
+LONG_A = 'QuantityTypeWithAVeryLongNameAlpha'
+LONG_B = 'QuantityTypeWithAVeryLongNameBeta'
+LONGNAMES = [
+    # type names that agree in their first 25 characters
+    [['type', LONG_A, 'la', None], ['type', LONG_B, 'lb', None],
+     ['unit', LONG_A, 'la2', ['scaled', 'i:12', 'la']],
+     ['unit', LONG_B, 'lb2', ['scaled', 'D:0.5', 'lb']],
+     ['dtype', 'LongAB', [[LONG_A, 1], [LONG_B, 1]], None, None],
+     ['dtype', 'LongAperB', [[LONG_A, 1], [LONG_B, -1]], None, None]],
+    [['type', LONG_B, 'lb', None], ['type', LONG_A, 'la', None],
+     ['unit', LONG_B, 'lb2', ['scaled', 'D:0.5', 'lb']],
+     ['dtype', 'LongBA', [[LONG_B, 1], [LONG_A, 1]], None, None],
+     ['dtype', 'LongBperA', [[LONG_B, 2], [LONG_A, -1]], None, None]],
+]
+
+
 def user_scripts(tier):
-    scripts = []
+    scripts = [list(s) for s in LONGNAMES]
     for mask in range(2 ** len(OPTIONAL)):
         s = list(BASE)
         for i, evs in enumerate(OPTIONAL):
@@ -447,8 +464,9 @@ def build_warm(script):
     them raise because their result type does not exist yet), then declare
     the rest: the world is reached from a non-initial evaluation history."""
     w = World()
+    split = len(BASE) if script[:len(BASE)] == BASE else 2
     for i, ev in enumerate(script):
-        if i == len(BASE):
+        if i == split:
             syms = list(w.units)
             for s1 in syms:
                 for s2 in syms:
